@@ -170,6 +170,36 @@ Proof. reflexivity. Qed.
 Example src_mainnet_is_network_0 : src_c12_mainnet_network_id = Some 0%N.
 Proof. reflexivity. Qed.
 
+(* ================= the translated Go code =================
+   Gen/GenL1InfoIndex.v is GENERATED on every run from bridgeservice/bridge.go: the two binary searches behind the l1-info-tree-index
+   endpoint (`for lower <= upper { .. break .. }` as a fixpoint on explicit fuel; the syncer calls are oracles, instantiated with the
+   model's stores, a call that reports no error returning a non-nil result; every pointer dereferenced without a test in sight is a
+   panic parameter). They compute the model's first_index_l1 / first_index_l2 - the subject of the index_search_* theorems above - for
+   every value of the panic and out-of-fuel parameters: same index, an error in the same cases, out of fuel for the same fuel. *)
+From Verif Require Base.GoNum Gen.GenL1InfoIndex Proofs.GenAgreeL1InfoIndex.
+Theorem C12_generated_index_search_l1_is_model : forall (hash : Type) (St : @stores hash) (panicv nofuel : N * GoNum.gerr) (dc : N),
+  (forall x, li_last_info (s_li St) = Some x -> (i_block x < GoNum.U64)%N) ->
+  (forall x, li_first_info (s_li St) = Some x -> (i_block x < GoNum.U64)%N) ->
+  let gen := GenL1InfoIndex.getFirstL1InfoTreeIndexForL1Bridge hash (GenAgreeL1InfoIndex.o_lastInfo St) (GenAgreeL1InfoIndex.o_rootL1 St)
+               (GenAgreeL1InfoIndex.o_firstInfo St) (GenAgreeL1InfoIndex.o_infoAfter St) panicv nofuel FUEL dc in
+  match first_index_l1 St dc with
+  | Ok i => gen = (i, GoNum.EOK)
+  | Err EFuel => gen = nofuel
+  | Err _ => GenAgreeL1InfoIndex.err_res gen
+  end.
+Proof. intros hash St panicv nofuel dc H1 H2. exact (GenAgreeL1InfoIndex.getFirstL1InfoTreeIndexForL1Bridge_agree St panicv nofuel dc H1 H2). Qed.
+Theorem C12_generated_index_search_l2_is_model : forall (hash : Type) (St : @stores hash) (panicv nofuel : N * GoNum.gerr) (dc : N),
+  (forall x, li_last_verified (s_li St) (s_net St) = Some x -> (v_block x < GoNum.U64)%N) ->
+  (forall x, li_first_verified (s_li St) (s_net St) = Some x -> (v_block x < GoNum.U64)%N) ->
+  let gen := GenL1InfoIndex.getFirstL1InfoTreeIndexForL2Bridge hash (s_net St) (GenAgreeL1InfoIndex.o_lastVer St) (GenAgreeL1InfoIndex.o_rootL2 St)
+               (GenAgreeL1InfoIndex.o_firstVer St) (GenAgreeL1InfoIndex.o_infoWithRer St) (GenAgreeL1InfoIndex.o_verAfter St) panicv nofuel FUEL dc in
+  match first_index_l2 St dc with
+  | Ok i => gen = (i, GoNum.EOK)
+  | Err EFuel => gen = nofuel
+  | Err _ => GenAgreeL1InfoIndex.err_res gen
+  end.
+Proof. intros hash St panicv nofuel dc H1 H2. exact (GenAgreeL1InfoIndex.getFirstL1InfoTreeIndexForL2Bridge_agree St panicv nofuel dc H1 H2). Qed.
+
 Print Assumptions claim_proof_verifies_l1.
 Print Assumptions claim_proof_verifies_rollup.
 Print Assumptions claim_proof_networks.
@@ -183,3 +213,5 @@ Print Assumptions index_search_not_minimal.
 Print Assumptions index_search_block0_incomplete.
 Print Assumptions exec_wf_blocks.
 Print Assumptions exec_rer_lookup_sound.
+Print Assumptions C12_generated_index_search_l1_is_model.
+Print Assumptions C12_generated_index_search_l2_is_model.
